@@ -1430,13 +1430,16 @@ fn check_call(kind: &str, max: usize, c: &CallRec, what: &str, sniffer_dependent
     // attempts accounted for: the contacts, plus one attempt on a dead cached client if the call
     // began with a cached client and did not use its connection
     let accounted = n + usize::from(c.pre_conn && !reused);
-    if c.res == "Io(ConnectionRefused)" {
+    // (in the healthy phase the node has been listening since before the call began: no connect of that
+    // call can have been refused by the kernel, seen or unseen — a refusal reported then is the fleet's own)
+    let listening_throughout = what.starts_with("healthy call");
+    if c.res == "Io(ConnectionRefused)" && !listening_throughout {
         // the fleet says its last attempt was refused: the node's log must end with that refusal
         if !matches!(c.contacts.last(), Some(x) if x.beh == Beh::Refused && x.via == Via::Connect) {
             return Verdict::Skip("refusal_unseen".into());
         }
     }
-    if sniffer_dependent && c.res.starts_with("Io(") && accounted < max {
+    if sniffer_dependent && c.res.starts_with("Io(") && accounted < max && !listening_throughout {
         // The call ended on a transport error although attempts seem to be left. Either the fleet
         // does not retry that kind (then the model, which has the extracted table, says so too — but
         // that cannot be told apart here), or it did use all its attempts and a refused connect was
@@ -1718,9 +1721,19 @@ fn run_case(env: &Env, idx: &str, kind: &str, variant: &str, max: usize, seq: &[
         }
     }
     // direct oracles
+    // A script call whose refusals cannot be accounted for (the fleet reports a refusal the node did not
+    // count) leaves the script phase unjudged and the case without an observation for the model — but
+    // not the healthy phase: whatever happened before, the node is listening and answering then, and that
+    // a call reaches it does not depend on the sniffer.
+    let mut script_unjudged: Option<String> = None;
     for (i, c) in script_calls.iter().enumerate() {
         match check_call(kind, max, c, &format!("script call {}", i + 1), seq.contains(&Beh::Refused)) {
             Verdict::Fine => {}
+            Verdict::Skip(r) if r == "refusal_unseen" => {
+                out.fails.clear();
+                script_unjudged = Some(r);
+                break;
+            }
             Verdict::Skip(r) => {
                 out.skip = Some(r);
                 return out;
@@ -1758,6 +1771,14 @@ fn run_case(env: &Env, idx: &str, kind: &str, variant: &str, max: usize, seq: &[
     }
     if let Some(f) = bystander_check(env, &rig, kind, max) {
         out.fails.push(f);
+    }
+    if let Some(r) = script_unjudged {
+        if out.fails.is_empty() {
+            out.skip = Some(r);
+            return out;
+        }
+        out.obs = Some(format!("{idx} script-phase-unjudged"));
+        return out;
     }
     if cut && out.fails.is_empty() {
         // the script phase was cut short and nothing is wrong by the oracles: the observation is
@@ -2821,7 +2842,14 @@ fn exec(env: &Env, line: &str) -> CaseOut {
         [op @ ("bc" | "mr"), idx, kind, max, nodes, req] if ["b", "a"].contains(kind) => {
             let (Ok(max), Some(nodes)) = (max.parse::<usize>(), parse_bc_nodes(nodes)) else { return bad() };
             let req: Vec<String> = if *req == "-" { vec![] } else { req.split(',').map(|x| x.to_string()).collect() };
-            run_bc(env, idx, kind, max, &nodes, &req, *op == "mr", pv)
+            let mut r = run_bc(env, idx, kind, max, &nodes, &req, *op == "mr", pv);
+            if !r.fails.is_empty() {
+                // which nodes a defective fan-out leaves out can depend on the iteration order of a hash
+                // map: a failing broadcast says only that it deviates (the detail has the rest), so that
+                // it reproduces
+                r.obs = Some(format!("{idx} deviates"));
+            }
+            r
         }
         ["obs", idx, kind, variant, max, observers, rounds] if ["b", "a"].contains(kind) && ["json", "jsonnp", "msg"].contains(variant) => {
             let (Ok(max), Ok(o), Ok(r)) = (max.parse::<usize>(), observers.parse::<usize>(), rounds.parse::<usize>()) else { return bad() };
@@ -2983,6 +3011,7 @@ fn gen_cases(rng: &mut Rng, thorough: bool) -> Vec<String> {
                     .collect();
                 let mut pv = Pv::random(rng);
                 pv.rs = pv.rs.min(3); // not the large replies times a hundred nodes
+                pv.fr = 3; // every reply takes a few ms: all the calls of the fan-out are in flight at the same time
                 ops.push(format!("{} bg{g} {kind} 1 {} {} {}", if j == 0 { "bc" } else { "mr" }, nodes.join(";"), ["a", "b,a", "-"][g % 3], pv.show()));
             }
         }
